@@ -431,6 +431,10 @@ func (ev *Eval) equal(a, b *Val) string {
 	if a.K == KSeq && b.K == KSeq {
 		return eq(a.T, b.T)
 	}
+	if a.K == KSlice && b.K == KSlice && !isNilVal(a) && !isNilVal(b) {
+		// in contracts == on slices means "the same slice" (same backing array, window)
+		return and(eq(a.Fs[0].T, b.Fs[0].T), eq(a.Fs[1].T, b.Fs[1].T), eq(a.Fs[2].T, b.Fs[2].T))
+	}
 	return ev.f.equal(ev.st, a, b)
 }
 
@@ -963,7 +967,7 @@ func (ev *Eval) specCall(sp *SpecFn, x *ast.CallExpr) *Val {
 	sub.env = map[string]*Val{}
 	sub.lets = map[string]ast.Expr{}
 	sub.locals = false
-	sub.bound = ev.bound
+	sub.bound = map[string]*Val{} // only the parameters are visible inside a spec body
 	for i, p := range sp.Params {
 		sub.env[p.Name] = args[i]
 	}
@@ -1225,6 +1229,7 @@ func (ev *Eval) evalConj(e ast.Expr) []Conj {
 				sub.env = map[string]*Val{}
 				sub.lets = map[string]ast.Expr{}
 				sub.locals = false
+				sub.bound = map[string]*Val{}
 				for i, p := range sp.Params {
 					sub.env[p.Name] = args[i]
 				}
